@@ -137,6 +137,20 @@ class Domain:
             return chr(c).isspace()
         return self._memo_get('sp', c, lambda: _in_ranges(c, self.space_ranges))
 
+    def char_class(self, kind, c):
+        """z3 predicate "chr(c).<kind>()" for the all-characters str predicates (isdigit, isdecimal,
+        isnumeric, isalnum, isalpha, isprintable); table computed from the running interpreter"""
+        if isinstance(c, int):
+            return getattr(chr(c), kind)()
+        def build():
+            key = '_cc_' + kind
+            rs = self.__dict__.get(key)
+            if rs is None:
+                universe = range(0x110000) if self.full else self.members
+                rs = self.__dict__[key] = _ranges([x for x in universe if getattr(chr(x), kind)()])
+            return _in_ranges(c, rs)
+        return self._memo_get('cc' + kind, c, build)
+
     def is_alpha(self, c):
         if isinstance(c, int):
             return chr(c).isalpha()
@@ -432,8 +446,28 @@ class SymStr:
             return False
         return mk(zand([tobool(self._ws(c)) for c in self.cs]))
 
+    def _allchars(self, kind):
+        if not self.cs:
+            return False
+        d = self._dom()
+        return mk(zand([tobool(d.char_class(kind, c)) for c in self._self().cs]))
+
     def isdigit(self):
-        raise Unsupported('str.isdigit')
+        return self._allchars('isdigit')
+
+    def isdecimal(self):
+        return self._allchars('isdecimal')
+
+    def isnumeric(self):
+        return self._allchars('isnumeric')
+
+    def isalnum(self):
+        return self._allchars('isalnum')
+
+    def isprintable(self):
+        if not self.cs:
+            return True
+        return self._allchars('isprintable')
 
     def isascii(self):
         return mk(zand([(z3.BoolVal(c < 128) if isinstance(c, int) else c < 128) for c in self._self().cs]))
